@@ -4,16 +4,18 @@ from pyvc.vtypes import *  # noqa
 
 SRC = "probes.py"
 EXPECT = {}   # qualname -> list of 'T' / 'F' per ensures clause
+XNAMES = {}   # qualname -> substrings of obligations that must fail
 
 
 def register(reg):
     def probe(q, params, returns, clauses, **kw):
         EXPECT[q] = [t for t, _ in clauses]
+        XNAMES[q] = [c for t, c in clauses if t == 'X']
         if returns is None:
             kw.setdefault("modifies", [])
-            reg.contract(SRC, q, params=params, ensures=[c for _, c in clauses], props=["SELF"], **kw)
+            reg.contract(SRC, q, params=params, ensures=[c for t, c in clauses if t != 'X'], props=["SELF"], **kw)
             return
-        kw.setdefault("modifies", []); reg.contract(SRC, q, params=params, returns=returns, ensures=[c for _, c in clauses], props=["SELF"], **kw)
+        kw.setdefault("modifies", []); reg.contract(SRC, q, params=params, returns=returns, ensures=[c for t, c in clauses if t != 'X'], props=["SELF"], **kw)
 
     LL = List(List(INT))
     probe("row_sums", {"rows": LL}, List(INT), [
@@ -224,3 +226,8 @@ def register(reg):
         ("F", "forall(range(0, len(rows)), lambda j: get0(rows[j], 'c') == old(get0(rows[j], 'c')) + 1)"),   # false with repeated rows
         ("F", "forall(range(0, len(rows)), lambda j: get0(rows[j], 'c') == old(get0(rows[j], 'c')))"),
     ], modifies=["*D.str.int.dom", "*D.str.int.val"], loops={0: {"inv": ["True"]}})
+    # clauses tagged X name an obligation (substring of its id) that must NOT be proved: undeclared effects are caught
+    probe("ident", {"xs": LI}, LI, [("X", "fresh"), ("T", "len(result) == len(xs)")], fresh_result=True)
+    probe("sneaky", {"d": COMP}, INT, [("X", "frame"), ("T", "result == 0")])
+    probe("lookup", {"d": COMP, "k": STR}, INT, [("X", "no-KeyError"), ("T", "implies(k in d, result == d[k])")])
+    probe("impure_len", {"xs": LI}, INT, [("X", "frame"), ("T", "result == len(xs)")], pure=True)
